@@ -18,6 +18,16 @@ cmod = sys.modules["cotengra.contract"]
 from . import gen, refimpl
 
 PROP = "C03"
+LEVEL = "proof"
+LEVEL_TEXT = ("Lean 4 theorems, for every network / tree / removed-index set: the legs, size and flops the "
+              "model computes recursively (as core.py does) equal the leaf-set definition from the network "
+              "alone (legs_get_eq_spec, size_eq_spec, flops_eq_spec), slicing divides exactly the carrying "
+              "nodes (slice_size/slice_flops), totals = definition x multiplicity (stats_eq_spec). The model "
+              "is tied to /repo on every run by equality correspondence of every node's figures, totals, "
+              "multiplicity and peak_size(order), and observed intermediate shapes are compared with get_size.")
+LEVEL_NOTE = ("Trusted: Lean kernel; the hand-written model (validated only on the generated cases); the "
+              "harness canonicalisation; numpy for the observed shapes. Guard: output indices occur in some input.")
+TECHNIQUE = "Lean 4 proof (structural induction, L1 leaf-set lemma) + differential correspondence with core.py"
 LEAN_MODULES = ["CotengraVerif.Props.C03"]
 THEOREMS = [
     "Cotengra.Net.legs_get_eq_spec",
